@@ -58,6 +58,30 @@ theorem removeAll_inv_partial (cfg : Cfg) (r : Reg) (hinv : Inv cfg r)
     (hguard : SameEnv (envOf cfg.base r.raw r.names) cfg.base) : Inv cfg (removeAll r) :=
   Profiles.removeAll_inv_partial cfg r hinv hguard
 
+/-- `addProfiles` (bulk add) on a registry without profiles — this is how `Profiles.__init__` fills the registry —
+with entries named apart, each expanding under the joint macro environment: no exception, the invariant holds,
+the contents are the entries in order. Partial: on a registry that already holds profiles the code does not
+re-expand them (see `finding_addProfiles`). -/
+theorem addProfiles_inv_partial (cfg : Cfg) (r : Reg) (l : List ProfileDef) (hinv : Inv cfg r) (hempty : r.names = [])
+    (hnd : (l.map (·.name)).Nodup)
+    (hex : ∀ d ∈ l, ∃ ex, expandDict cfg.fuel (bulkEnv cfg.base l) d.props = .ok ex) :
+    (addProfiles cfg r l).2 = none ∧ Inv cfg (addProfiles cfg r l).1 ∧
+    contents (addProfiles cfg r l).1 = l.map (fun d => { name := d.name, props := d.props, macros := dm d }) ∧
+    (addProfiles cfg r l).1.default = r.default :=
+  addProfiles_inv_empty cfg r l hinv hempty hnd hex
+
+/-- `Profiles()`: for built-in tables whose names differ and whose definitions expand (checked for the generated
+tables by the driver on every run: `initcheck`), construction does not raise and yields a registry that
+satisfies the invariant — so every theorem here applies to all histories that start from a fresh `Profiles()` -/
+theorem init_inv (cfg : Cfg) (l : List ProfileDef) (hnd : (l.map (·.name)).Nodup)
+    (hex : ∀ d ∈ l, ∃ ex, expandDict cfg.fuel (bulkEnv cfg.base l) d.props = .ok ex) :
+    (init cfg l).2 = none ∧ Inv cfg (init cfg l).1 ∧
+    contents (init cfg l).1 = l.map (fun d => { name := d.name, props := d.props, macros := dm d }) := by
+  obtain ⟨h1, h2, h3, _⟩ := addProfiles_inv_empty cfg (empty cfg) l (inv_empty cfg) rfl hnd hex
+  unfold init
+  simp only [h1]
+  exact ⟨trivial, ⟨h2.nodup, h2.rawDom, h2.rawFull, h2.used, h2.ckeys, h2.cvals, rfl⟩, h3⟩
+
 theorem setDefault_inv (cfg : Cfg) (r : Reg) (d : Option (List Str)) (hinv : Inv cfg r) : Inv cfg (setDefault r d) :=
   Profiles.setDefault_inv cfg r d hinv
 
